@@ -1,4 +1,4 @@
 """Package docstring."""
-from ._private.hidden import exported_func as public_alias
+from kwpkg._private.hidden import exported_func as public_alias
 from .subpkg.mod_a import ReexportedClass
 from .subpkg import mod_b
